@@ -101,6 +101,9 @@ func c14(c *Ctx) {
 	c14FlushOnPush(c, htcp)
 	c14NextHopOfPeer(c)
 	c14PayloadIsWhatWasRead(c)
+	c14NewStateInFrontOfTimeWait(c)
+	// the port handler parks in Socket.Read until flush() signals it; the signal must not be lost when the handler is not parked yet (shared with C16)
+	wakeupNotLost(c, canaryRel, "Socket.flush no longer signals the reader with a non-blocking send (rule needs re-anchoring)", "the pushed segment stays in the ring until the reader's 60 s timeout: the port handler's single Read returns nothing and the event is reported without the client's first pushed segment")
 	// the payload the segment handler sees ends where the IP datagram ends, not where the Ethernet frame ends (shared with C20)
 	c20FrameTrimmed(c)
 	checksumOddOctetHigh(c, "checksum-odd-octet-high", "Odd-length segments with a non-zero last octet are dropped as corrupt or answered with a checksum the peer rejects.")
